@@ -5,7 +5,7 @@
 
 package parser
 
-//@ props C01 C10 C08 C17
+//@ props C01 C10 C08 C17 C07 C09
 
 //@ wf elems
 //@ default opaque
@@ -86,7 +86,23 @@ package parser
 //@   ensures result == WORD ==> len(l.word) >= 1
 //@   ensures result == IO_NUMBER ==> len(l.word) == 1 && l.word[0] is *ast.Lit
 //@   ensures result != WORD && result != IO_NUMBER && result >= 0 ==> len(l.word) == 0
+// After the first token of a call a comment is skipped up to, not including,
+// the newline that ends it, so that the newline still ends the command.
+//@ func (*lexer).skipComment
+//@   ensures[C07 C09] stays-in-the-source: old(len(l.aliases)) == 0 ==> len(l.aliases) == 0
+//@   ensures[C07 C09] newline-left: old(len(l.aliases)) == 0 ==> l.eof || l.err != nil || (srcpos() < srclen() && srcrune(srcpos()) == '\n')
+//@   ensures[C09] one-comment: len(l.comments) == old(len(l.comments)) + 1 && (forall j: 0 <= j && j < old(len(l.comments)) ==> l.comments[j] == old(l.comments[j]))
+//@ func (*lexer).comment
+//@   ensures[C09] one-comment: len(l.comments) == old(len(l.comments)) + 1 && (forall j: 0 <= j && j < old(len(l.comments)) ==> l.comments[j] == old(l.comments[j]))
+//@   ensures[C09 C04] hash-and-text: l.comments[len(l.comments)-1].Hash == old(l.pos) && l.comments[len(l.comments)-1].Text == old(l.b) && l.b == ""
+//@ func (*lexer).linebreak
+//@   site NEXT = call parser.(*lexer).read
+//@   assert[C09 C04] at call parser.(*lexer).mark#2: comment-starts-at-its-first-hash: !at(NEXT, hash)
+//@   assert[C09] at call strings.(*Builder).WriteRune: text-only-inside-a-comment: hash
+//@   assert[C09] at call parser.(*lexer).comment#1: comment-ends-at-end-of-input: hash
+//@   assert[C09] at call parser.(*lexer).comment#2: comment-ends-at-newline: hash && r == '\n'
 //@ func (*lexer).scanRawToken
+//@   ensures[C07 C09] first-token-seen: l.started
 //@   ensures result == WORD ==> len(l.word) >= 1
 //@   ensures result == IO_NUMBER ==> len(l.word) == 1 && l.word[0] is *ast.Lit
 //@   ensures result != WORD && result != IO_NUMBER && result >= 0 ==> len(l.word) == 0
@@ -103,7 +119,12 @@ package parser
 //@   ensures result != WORD && result != IO_NUMBER && result >= 0 ==> len(l.word) == 0
 //@ func (*lexer).scanArithExpr
 //@   ensures result == RAE || result == -1
+// An operator is recognised with one rune of look-ahead (two for "<<-") and
+// the look-ahead is given back when it is not part of the operator: scanOp
+// consumes exactly the runes of the operator it returns.
+//@ spec func oplen(op int) int = (op == HEREDOCI ? 3 : (op == AND || op == OR || op == BREAK || op == LAE || op == RAE || op == DUPIN || op == DUPOUT || op == HEREDOC || op == RDWR || op == APPEND || op == CLOBBER ? 2 : 1))
 //@ func (*lexer).scanOp
+//@   ensures[C07] consumes-exactly-the-operator: old(len(l.aliases)) == 0 ==> len(l.aliases) == 0 && srcpos() == old(srcpos()) + oplen(result) - 1
 //@   requires r == '&' || r == '(' || r == ')' || r == ';' || r == '<' || r == '>' || r == '|'
 //@   ensures result > 0 && result != WORD && result != IO_NUMBER && len(l.word) == old(len(l.word))
 //@ func (*lexer).lit
@@ -125,38 +146,43 @@ package parser
 //@ func (*heredoc).pop
 //@   ensures[C08] takes-the-front: result != nil ==> old(len(h.stack)) >= 1 && result == old(h.stack[0]) && len(h.stack) == old(len(h.stack)) - 1 && (forall j: 0 <= j && j < len(h.stack) ==> h.stack[j] == old(h.stack[j+1]))
 //@   ensures[C08] nothing-taken: result == nil ==> h.stack == old(h.stack) && h.n == 0
-//@   ensures[C01 C08] one-less-pending: result != nil ==> old(h.n) >= 1 && h.n == old(h.n) - 1
+//@   ensures[C01 C07 C08] one-less-pending: result != nil ==> old(h.n) >= 1 && h.n == old(h.n) - 1
+//@ func (*heredoc).exists
+//@   ensures result == (h.n != 0)
 //@ func (*heredoc).inc
 //@   ensures old(h.n) < 4294967295 ==> h.n == old(h.n) + 1
 //@ func (*lexer).scanRedir
 //@   ensures result == WORD ==> len(l.word) >= 1
 //@   ensures result == IO_NUMBER ==> len(l.word) == 1 && l.word[0] is *ast.Lit
 //@   ensures result != WORD && result != IO_NUMBER && result >= 0 ==> len(l.word) == 0
-//@   ensures[C01 C08] delimiter-counted: (tok#0 == HEREDOC || tok#0 == HEREDOCI) && result == WORD && old(l.heredoc.n) < 4294967295 ==> l.heredoc.n == old(l.heredoc.n) + 1
-//@   ensures[C01 C08] nothing-else-counted: !((tok#0 == HEREDOC || tok#0 == HEREDOCI) && result == WORD) ==> l.heredoc.n == old(l.heredoc.n)
+//@   ensures[C01 C07 C08] delimiter-counted: (tok#0 == HEREDOC || tok#0 == HEREDOCI) && result == WORD && old(l.heredoc.n) < 4294967295 ==> l.heredoc.n == old(l.heredoc.n) + 1
+//@   ensures[C01 C07 C08] nothing-else-counted: !((tok#0 == HEREDOC || tok#0 == HEREDOCI) && result == WORD) ==> l.heredoc.n == old(l.heredoc.n)
 
 // The state functions that start by emitting the token they were chosen for.
+// A newline at the top level (no open construct, no pending here-document,
+// not inside an alias) ends the call: lexing stops and nothing more is read.
 //@ func (*lexer).lexToken
+//@   ensures[C07] newline-ends-the-command: tok == '\n' && old(l.heredoc.n) == 0 && old(len(l.aliases)) == 0 && old(len(l.stack)) == 0 ==> result == nil && srcpos() == old(srcpos())
 //@   requires tok == WORD || tok == IO_NUMBER || tok <= 0 || tokready(l)
 //@   requires tok == '\n' ==> len(l.word) == 0
 //@ func (*lexer).lexCmd
 //@   site OP = call parser.(*lexer).emit#1
-//@   assert[C01 C08] at call parser.(*lexer).emit#2: heredoc-delimiter-counted: site(OP) && (sitearg(OP, 1) == HEREDOC || sitearg(OP, 1) == HEREDOCI) && arg1 == WORD && old(l.heredoc.n) < 4294967295 ==> l.heredoc.n == old(l.heredoc.n) + 1
+//@   assert[C01 C07 C08] at call parser.(*lexer).emit#2: heredoc-delimiter-counted: site(OP) && (sitearg(OP, 1) == HEREDOC || sitearg(OP, 1) == HEREDOCI) && arg1 == WORD && old(l.heredoc.n) < 4294967295 ==> l.heredoc.n == old(l.heredoc.n) + 1
 //@   requires tok == WORD ==> len(l.word) >= 1
 //@   requires tok == IO_NUMBER ==> len(l.word) == 1 && l.word[0] is *ast.Lit
 //@   requires tok != WORD && tok != IO_NUMBER && tok >= 0 ==> len(l.word) == 0
 //@ func (*lexer).onCmdSuffix
 //@   site OP = call parser.(*lexer).emit#1
-//@   assert[C01 C08] at call parser.(*lexer).emit#2: heredoc-delimiter-counted: site(OP) && (sitearg(OP, 1) == HEREDOC || sitearg(OP, 1) == HEREDOCI) && arg1 == WORD && old(l.heredoc.n) < 4294967295 ==> l.heredoc.n == old(l.heredoc.n) + 1
+//@   assert[C01 C07 C08] at call parser.(*lexer).emit#2: heredoc-delimiter-counted: site(OP) && (sitearg(OP, 1) == HEREDOC || sitearg(OP, 1) == HEREDOCI) && arg1 == WORD && old(l.heredoc.n) < 4294967295 ==> l.heredoc.n == old(l.heredoc.n) + 1
 //@   requires tok == WORD ==> len(l.word) >= 1
 //@   requires tok == IO_NUMBER ==> len(l.word) == 1 && l.word[0] is *ast.Lit
 //@   requires tok != WORD && tok != IO_NUMBER && tok >= 0 ==> len(l.word) == 0
 //@ func (*lexer).lexCmdPrefix
 //@   site OP = call parser.(*lexer).emit#1
-//@   assert[C01 C08] at call parser.(*lexer).emit#3: heredoc-delimiter-counted: site(OP) && (sitearg(OP, 1) == HEREDOC || sitearg(OP, 1) == HEREDOCI) && arg1 == WORD && old(l.heredoc.n) < 4294967295 ==> l.heredoc.n == old(l.heredoc.n) + 1
+//@   assert[C01 C07 C08] at call parser.(*lexer).emit#3: heredoc-delimiter-counted: site(OP) && (sitearg(OP, 1) == HEREDOC || sitearg(OP, 1) == HEREDOCI) && arg1 == WORD && old(l.heredoc.n) < 4294967295 ==> l.heredoc.n == old(l.heredoc.n) + 1
 //@ func (*lexer).lexRedir
 //@   site OP = call parser.(*lexer).emit#1
-//@   assert[C01 C08] at call parser.(*lexer).emit#2: heredoc-delimiter-counted: site(OP) && (sitearg(OP, 1) == HEREDOC || sitearg(OP, 1) == HEREDOCI) && arg1 == WORD && old(l.heredoc.n) < 4294967295 ==> l.heredoc.n == old(l.heredoc.n) + 1
+//@   assert[C01 C07 C08] at call parser.(*lexer).emit#2: heredoc-delimiter-counted: site(OP) && (sitearg(OP, 1) == HEREDOC || sitearg(OP, 1) == HEREDOCI) && arg1 == WORD && old(l.heredoc.n) < 4294967295 ==> l.heredoc.n == old(l.heredoc.n) + 1
 //@ func (*lexer).lexSimpleCmd
 //@   requires len(l.word) >= 1
 //@ func (*lexer).lexSubshell
@@ -248,12 +274,23 @@ package parser
 // error, stated for every method below), and ParseCommands returns the slot.
 // The two goroutines' accesses to the slot are serialised by l.mu; the
 // contracts describe each critical section, not the interleaving.
+// ---- consumption of the source (C07, C09) ----
+//
+// The runes the source will deliver are a ghost sequence (srcrune(i), i <
+// srclen()); srcpos() counts the runes delivered.  Outside an alias
+// expansion read delivers the next rune and advances by one, a failed read
+// does not advance, and unread takes back exactly the rune just read.
 //@ func (*lexer).read
+//@   ensures[C07 C09] delivers-next-rune: old(len(l.aliases)) == 0 && result1 == nil ==> len(l.aliases) == 0 && srcpos() == old(srcpos()) + 1 && result0 == srcrune(old(srcpos())) && 0 <= old(srcpos()) && old(srcpos()) < srclen() && lastread()
+//@   ensures[C07 C09] failed-read-consumes-nothing: old(len(l.aliases)) == 0 && result1 != nil ==> len(l.aliases) == 0 && srcpos() == old(srcpos()) && !lastread() && (result1 == io.EOF ==> l.eof) && (result1 != io.EOF ==> l.err != nil)
 //@   ensures[C17] only-pops: len(l.aliases) <= old(len(l.aliases)) && (forall j: 0 <= j && j < len(l.aliases) ==> l.aliases[j] == old(l.aliases[j]))
 //@   ensures[C10] read-error-recorded: result1 != nil && result1 != io.EOF ==> l.err != nil
 //@   ensures[C10] first-error-kept: old(l.err) != nil ==> l.err == old(l.err)
 //@   ensures[C10] slot-holds-the-read-error: old(l.err) == nil && l.err != nil ==> l.err == result1
 //@   loop "for i := len(l.aliases) - 1; i >= 0; i--" invariant i < len(l.aliases)
+//@ func (*lexer).unread
+//@   ensures[C07 C09] takes-back-one: old(len(l.aliases)) == 0 && old(lastread()) ==> srcpos() == old(srcpos()) - 1 && len(l.aliases) == 0
+//@   ensures[C07 C09] nothing-to-take-back: old(len(l.aliases)) == 0 && !old(lastread()) ==> srcpos() == old(srcpos()) && len(l.aliases) == 0
 
 // find splits what was read into body and delimiter line without losing a
 // part: the body is everything before the delimiter line.
